@@ -622,6 +622,8 @@ class Ex:
                 val = self.ite(g, val, self.env[tgt.id])
             elif g is not None and (self.arrlike(val) or isinstance(val, tuple)) and tgt.id in self.env:
                 raise OutsideSubset('conditional rebinding of an array name')
+            if isinstance(val, ArrObj) and val.name.startswith(('tmp', self.fp + 'const', self.fp + 'empty')):
+                val.name = tgt.id          # bounds obligations are keyed by the source-level name
             self.env[tgt.id] = val
             return
         if isinstance(tgt, ast.Tuple):
